@@ -9,6 +9,7 @@ package main
 // ext:    stdlib answers the model may need (float text, zone offsets), space separated.
 
 import (
+	"encoding/base64"
 	"encoding/json"
 	"fmt"
 	"math"
@@ -617,6 +618,26 @@ func genC11(cw *caseWriter, seed uint64, tier string) {
 		}
 		for v := 0; v < 65536; v += step {
 			emitCast(cw, "C11", "To:"+ty, []byte{byte(v), byte(v >> 8)}, true)
+		}
+	}
+	// column level: a binary column mapped to a fixed-width type (or bool) accepts only well-sized payloads
+	// and re-emits exactly the bytes it accepted: base64 payloads of every length 0-17
+	for _, ty := range append(append([]string{}, fixedWidthTys...), "bool") {
+		for n := 0; n <= 17; n++ {
+			for k := 0; k < 3; k++ {
+				b := make([]byte, n)
+				for j := range b {
+					switch k {
+					case 0:
+						b[j] = 0
+					case 1:
+						b[j] = 0xff
+					default:
+						b[j] = byte(r.u64())
+					}
+				}
+				emitImpFor(cw, "C11", "binary", ty, base64.StdEncoding.EncodeToString(b))
+			}
 		}
 	}
 }
